@@ -7,19 +7,68 @@
    mismatch to be looked at. *)
 From Coq Require Import Strings.String Strings.Byte.
 From Coq Require Import List Arith NArith ZArith Bool Lia.
-From Verif Require Import Base.Bytes Base.Val Base.Outcome Model.Xfer Model.RawProto Model.ReadLoop.
+From Verif Require Import Base.Bytes Base.Val Base.Outcome Model.Xfer Model.RawProto Model.ReadLoop
+  Model.SizedLoop.
 From Verif Require Corr.C12.
 Import ListNotations.
 
+(* ---- jsonproto / pbproto (size-prefixed frames): inputs (ssized nLIM xSTREAM TABLE) where
+   TABLE = ((xFRAME sCLASS nMTYPE) ...) gives, for every complete frame within the limit that the
+   harness found in the stream, the class of what the REAL decoder made of it in isolation
+   (gjson / protobuf / codecs are library code: a table of the values the library returned, as
+   for gzip under C05/C12). The model does the framing, the limit check and the loop; a frame
+   the model wants decoded that the table does not list makes the case MALFORMED (reported).
+   For an Unsupported ending the close is asynchronous (go sess.Close()): the loop may start
+   further iterations before it takes effect, so the observed count may exceed the model's. ---- *)
+Definition class_of (c : val) (mt : N) : option fclass :=
+  if sym_eqb c "ok" then Some (FOk (n2b mt))
+  else if sym_eqb c "errcodec" then Some (FErrCodec (n2b mt))
+  else if sym_eqb c "errnil" then Some FErrNil
+  else if sym_eqb c "panic" then Some FPanic
+  else None.
+
+Fixpoint tab_lookup (tab : list val) (fr : bytes) : option fclass :=
+  match tab with
+  | VL [VB f; c; VN mt] :: r => if bytes_eqb f fr then class_of c mt else tab_lookup r fr
+  | _ => None
+  end.
+
+Definition tab_decode (tab : list val) (fr : bytes) : fclass :=
+  match tab_lookup tab fr with Some c => c | None => FPanic end.
+
+Definition tab_covers (tab : list val) (frames : list bytes) : bool :=
+  forallb (fun fr => match tab_lookup tab fr with Some _ => true | None => false end) frames.
+
+Definition obs_ge (obs : val) (pre : N) : bool :=
+  match obs with
+  | VL [VN p; d] => (pre <=? p)%N && sym_eqb d "true"
+  | _ => false
+  end.
+
+Definition run_sized (lim : N) (s : bytes) (tab : list val) (obs : val) : option val :=
+  let fuel := S (length s) in
+  if negb (tab_covers tab (sized_frames fuel lim s)) then None
+  else
+    match sized_reader (tab_decode tab) fuel lim s 0 with
+    | (pre, Blocked) => Some (VL [VN pre; vbool false])
+    | (pre, Disconnected) => Some (VL [VN pre; vbool true])
+    | (pre, Unsupported) => if obs_ge obs pre then Some obs else Some (VL [VN pre; vbool true])
+    | (_, Ambiguous) => None
+    | (_, OutOfFuel) => None
+    end.
+
 Definition run (inp : val) : option val :=
   match inp with
+  | VL [VS tag; VN lim; VB s; VL tab; obs] =>
+      if bytes_eqb tag (str "sized") then run_sized lim s tab obs else None
   | VL [VN lim; VB s; obs] =>
       let reg := Corr.C12.registry_of [] in
       match reader (S (length s)) reg lim s 0 with
       | (pre, Blocked) => Some (VL [VN pre; vbool false])
       | (pre, Disconnected) => Some (VL [VN pre; vbool true])
       | (_, Ambiguous) => Some obs          (* the code itself is not deterministic here *)
-      | (_, Unsupported) => Some obs        (* asynchronous close: excluded by the harness *)
+      | (pre, Unsupported) =>               (* asynchronous close: further iterations may start *)
+          if obs_ge obs pre then Some obs else Some (VL [VN pre; vbool true])
       | (_, OutOfFuel) => None
       end
   | _ => None
@@ -28,6 +77,8 @@ Definition run (inp : val) : option val :=
 (* the observation is passed inside the inputs as well, see above *)
 Definition check_line (line : bytes) : bytes :=
   match parse_val line with
+  | Some (VL [VL [tag; lim; s; tab]; obs]) =>
+      check_line_with run (print_val (VL [VL [tag; lim; s; tab; obs]; obs]))
   | Some (VL [VL [lim; s]; obs]) => check_line_with run (print_val (VL [VL [lim; s; obs]; obs]))
   | _ => str "MALFORMED"
   end.
